@@ -373,8 +373,9 @@ pub fn to_owned_chars(s: Vec<char>) -> (r: Vec<char>) ensures r@ == s@ { unimple
 pub fn parse_i32(s: &Vec<char>) -> (r: Result<i32, VErr>) ensures r is Ok <==> i32::MIN <= val(s@) <= i32::MAX, r is Ok ==> r->Ok_0 == val(s@) { unimplemented!() }
 #[verifier::external_body]
 pub fn parse_i128(s: &Vec<char>) -> (r: Result<i128, VErr>) ensures r is Ok <==> i128::MIN <= val(s@) <= i128::MAX, r is Ok ==> r->Ok_0 == val(s@) { unimplemented!() }
-#[verifier::external_body] pub fn i32_to_chars(v: i32) -> (r: Vec<char>) ensures val(r@) == v { unimplemented!() }
-#[verifier::external_body] pub fn i128_to_chars(v: i128) -> (r: Vec<char>) ensures val(r@) == v { unimplemented!() }
+pub trait NumText { spec fn num(&self) -> int; fn to_chars(&self) -> (r: Vec<char>) ensures val(r@) == self.num(); }
+impl NumText for i32 { open spec fn num(&self) -> int { *self as int } #[verifier::external_body] fn to_chars(&self) -> (r: Vec<char>) { unimplemented!() } }
+impl NumText for i128 { open spec fn num(&self) -> int { *self as int } #[verifier::external_body] fn to_chars(&self) -> (r: Vec<char>) { unimplemented!() } }
 """
 
 
@@ -392,8 +393,7 @@ def build_negate(repo):
         Rule("R3", "bail ! $a", "return Err ( VErr )", why="bail! -> return Err"),
         Rule("R5", "flip_sign ( x ) . parse :: < i32 > ( )", "parse_i32 ( & flip_sign ( x ) )", why="str::parse::<i32> with its std contract"),
         Rule("R5", "flip_sign ( x ) . parse :: < i128 > ( )", "parse_i128 ( & flip_sign ( x ) )", why="str::parse::<i128> with its std contract"),
-        Rule("R5", "Integer ( negated . to_string ( ) )", "Integer ( i32_to_chars ( negated ) )", why="i32::to_string"),
-        Rule("R5", "BigInt ( negated . to_string ( ) )", "BigInt ( i128_to_chars ( negated ) )", why="i128::to_string"),
+        Rule("R5", "negated . to_string ( )", "negated . to_chars ( )", why="i32 / i128 ::to_string: the decimal numeral of the value, whatever variant it is wrapped in"),
     ]
     b = translate(f["body"], rules, log, "Number::negate")
     out = []
@@ -429,7 +429,7 @@ impl Number {{
 }} // verus!
 fn main() {{}}
 """
-    return gen, [Obl("C06.negate", ["C06"], fn="Number::negate", desc="Number::negate: same kind; int / bigint get the exact opposite value and fail exactly when it is not representable (as the run-time operator does); float sign toggled; bytes cannot be negated")], log
+    return gen, [Obl("C06.negate", ["C06", "C05"], fn="Number::negate", desc="Number::negate: same kind; int / bigint get the exact opposite value and fail exactly when it is not representable (as the run-time operator does); float sign toggled; bytes cannot be negated")], log
 
 
-UNITS.append(VUnit("c06_negate", ["C06"], "folded unary minus keeps kind, toggles sign", build_negate))
+UNITS.append(VUnit("c06_negate", ["C06", "C05"], "folded unary minus keeps kind, toggles sign", build_negate))
